@@ -91,7 +91,20 @@ func genC01(t *rapid.T) c01Case {
 		c.Cfgs[0].Filename = ""
 		c.Cfgs[0].PkgLevel = rapid.Bool().Draw(t, "pkglevel") // package-level functions; only honoured when no Update option is needed
 	}
-	for range c.Cfgs {
+	hasAlias := false
+	if !c.Cfgs[0].PkgLevel && rapid.IntRange(0, 3).Draw(t, "alias") == 0 {
+		// a second Config that addresses the SAME file as the first through another spelling of the directory (a helper that
+		// builds the path with "/../", a trailing separator, "./"): one file, one sequence of ordinals per test
+		alias := c.Cfgs[0]
+		alias.DirStyle = rapid.SampledFrom([]string{"trailing", "dot", "dotdot", "double"}).Draw(t, "aliasstyle")
+		c.Cfgs = append(c.Cfgs, alias)
+		hasAlias = true
+	}
+	for i := range c.Cfgs {
+		if hasAlias && i == len(c.Cfgs)-1 {
+			c.Initial = append(c.Initial, nil) // the alias shares the first config's file
+			continue
+		}
 		if rapid.IntRange(0, 2).Draw(t, "hasinitial") > 0 {
 			c.Initial = append(c.Initial, genInitialEntries(t, names, o, 12))
 		} else {
@@ -268,6 +281,11 @@ func checkC01(c c01Case) error {
 
 func classifyC01(c c01Case) ([]string, bool) {
 	var cls []string
+	for i, cf := range c.Cfgs {
+		if i > 0 && cf.DirStyle != "" && cf.Filename == c.Cfgs[0].Filename && cf.Dir == c.Cfgs[0].Dir {
+			cls = append(cls, "one_file_through_two_spellings_of_the_directory")
+		}
+	}
 	if c.InitialCRLF {
 		for _, es := range c.Initial {
 			if len(es) > 0 {
